@@ -364,6 +364,27 @@ def main():
         g = build.gen_headers(xml, "rel")
         if g["rc"] == 0:
             raws.append((name, xml, g))
+    # --inject-include: documented to put `#include "PATH"` at the top of schema/schema.hpp (the repository's own CMake
+    # helper passes a path relative to that file).  Every header must still compile on its own, and the directive must
+    # really be there: schema/schema.hpp and the umbrella header are compiled with an #error unless the anchor was seen.
+    inj_jobs = []
+    inj_sc = S.corpus()[0]
+    inj_rel = "../../c07 anchor-1.hpp"
+    inj_gen = build.gen_headers(inj_sc.to_xml(), "rel", extra_args=("--inject-include", inj_rel))
+    if inj_gen["rc"] == 0:
+        C.write_file(os.path.join(inj_gen["dir"], "c07 anchor-1.hpp"), "#pragma once\n#define C07_ANCHOR_SEEN 1\n")
+        raws.append(("inject-include:" + inj_sc.name, inj_sc.to_xml(), inj_gen))
+
+        class Inj:
+            pass
+        for hdr in ("%s/schema/schema.hpp" % inj_sc.package, "%s/%s.hpp" % (inj_sc.package, inj_sc.package)):
+            x = Inj()
+            x.label = "injected-include-present:" + hdr
+            x.src = ('#include <%s>\n#ifndef C07_ANCHOR_SEEN\n#error "--inject-include: the directive is missing from %s"\n#endif\n'
+                     'int main() { return 0; }\n' % (hdr, hdr))
+            inj_jobs.append(("xtu", "inject-include:" + inj_sc.name, inj_sc.to_xml(), inj_gen, x))
+    else:
+        rep.inconc("sbeppc rejected --inject-include for %s: %s" % (inj_sc.name, inj_gen["out"][-200:]))
     jobs = []
     rng = C.rng_for(rep.seed, "c07")
     for name, xml, gen in [(p.schema.name, p.xml, p.gen) for p in preps] + raws:
@@ -406,6 +427,10 @@ def main():
                 continue
             for cfg in tu_cfgs:
                 jobs.append(("xtu", p.schema.name, p.xml, p.gen, x, cfg))
+
+    for j in inj_jobs:
+        for cfg in tu_cfgs:
+            jobs.append(j + (cfg,))
 
     def run(job):
         kind, name, xml, gen, what, cfg = job
